@@ -252,6 +252,8 @@ func dfsExact(variant string, progs [][]call, bound int, emit func(hx.Case), lim
 }
 
 var dfsPrograms = [][][]call{
+	// two waiters around a zero crossing followed by a fresh increment
+	{{{"a", 1}, {"a", -1}}, {{"w", 0}}, {{"a", 1}, {"w", 0}}},
 	// totals beyond 32 bits (a narrowed counter would wrap to zero and release the waiter)
 	{{{"a", 1 << 30}, {"a", 1 << 30}, {"a", 1 << 30}, {"a", 1 << 30}}, {{"w", 0}}},
 	{{{"a", 1}}, {{"w", 0}}, {{"a", -1}, {"a", 1}}, {{"a", -1}}},
@@ -306,7 +308,7 @@ func runGSync(f *hx.Flags) {
 	}
 	r.RunCorpus()
 	variant := "cur"
-	nprog, nsched, bound, limit := r.N(700), 6, 2, 6000
+	nprog, nsched, bound, limit := r.N(700), 6, 2, 8000
 	if f.Tier == "thorough" {
 		nprog, nsched, bound, limit = r.N(12000), 12, 3, 400000
 	}
